@@ -18,6 +18,7 @@ type Env struct {
 	Tier    string // quick | thorough
 	Race    bool   // built with -race
 	Instr   bool   // built with the statement-yield overlay
+	Wide    bool   // ... which also covers every file under primitives/
 	Variant string
 	// RaceCheck, if set, is called after the tasks of a run were joined and
 	// returns the text of any new race report.
